@@ -151,7 +151,7 @@ static Node *postfix(Token **rest, Token *tok);
 static Node *funcall(Token **rest, Token *tok, Node *node);
 static Node *unary(Token **rest, Token *tok);
 static Node *primary(Token **rest, Token *tok);
-static Token *parse_typedef(Token *tok, Type *basety);
+static Token *parse_typedef(Token *tok, Type *basety, Node **code);
 static bool is_function(Token *tok);
 static Token *function(Token *tok, Type *basety, VarAttr *attr);
 static Token *global_variable(Token *tok, Type *basety, VarAttr *attr);
@@ -818,6 +818,13 @@ static Type *typeof_specifier(Token **rest, Token *tok) {
 // Generate code for computing a VLA size.
 static Node *compute_vla_size(Type *ty, Token *tok) {
   Node *node = new_node(ND_NULL_EXPR, tok);
+
+  // The size of a variably modified type is fixed where its declaration
+  // is reached (C11 6.7.8p3). A type that comes from a typedef name or
+  // from typeof already has its size.
+  if (ty->vla_size)
+    return node;
+
   if (ty->base)
     node = new_binary(ND_COMMA, node, compute_vla_size(ty->base, tok), tok);
 
@@ -1862,7 +1869,13 @@ static Node *compound_stmt(Token **rest, Token *tok) {
       Type *basety = declspec(&tok, tok, &attr);
 
       if (attr.is_typedef) {
-        tok = parse_typedef(tok, basety);
+        // The array sizes of a variably modified type are evaluated here.
+        Node *code = NULL;
+        tok = parse_typedef(tok, basety, &code);
+        if (code) {
+          cur = cur->next = code;
+          add_type(cur);
+        }
         continue;
       }
 
@@ -3414,8 +3427,10 @@ static Node *primary(Token **rest, Token *tok) {
   error_tok(tok, "expected an expression");
 }
 
-static Token *parse_typedef(Token *tok, Type *basety) {
+static Token *parse_typedef(Token *tok, Type *basety, Node **code) {
   bool first = true;
+  Node head = {};
+  Node *cur = &head;
 
   while (!consume(&tok, tok, ";")) {
     if (!first)
@@ -3426,6 +3441,14 @@ static Token *parse_typedef(Token *tok, Type *basety) {
     if (!ty->name)
       error_tok(ty->name_pos, "typedef name omitted");
     push_scope(get_ident(ty->name))->type_def = ty;
+
+    if (code)
+      cur = cur->next = new_unary(ND_EXPR_STMT, compute_vla_size(ty, tok), tok);
+  }
+
+  if (code && head.next) {
+    *code = new_node(ND_BLOCK, tok);
+    (*code)->body = head.next;
   }
   return tok;
 }
@@ -3672,7 +3695,7 @@ Obj *parse(Token *tok) {
 
     // Typedef
     if (attr.is_typedef) {
-      tok = parse_typedef(tok, basety);
+      tok = parse_typedef(tok, basety, NULL);
       continue;
     }
 
